@@ -36,8 +36,8 @@ def mrp_writer(evs):
     return None
 
 
-def one_cycle(root, wd, prog, sem, name, k, sig):
-    c = procdrv.Cycle(root, wd, prog, sem, name)
+def one_cycle(root, wd, prog, sem, name, k, sig, cores=4):
+    c = procdrv.Cycle(root, wd, prog, sem, name, cores=cores)
     c.mark("RunBegin")
     if sig == "SIGKILL":
         rc1, _ = c.run(crash_at=k)
@@ -214,9 +214,30 @@ def run(tier, replay=None):
         spec = json.load(open(os.path.join(replay, "case.json")))
         cases = [(p, spec["k"], spec["sig"]) for p in progs if p["name"] == spec["program"]]
 
+    # mapped splitting stages on ONE core: while a job of one fork runs, jobs of the other forks
+    # (a join behind a sibling's chunk) are only queued; after the kill the running job reports
+    # the signal its parent's death sends it, the queued ones say nothing
+    onecore = {}
+    for p in progs:
+        if p["name"] in ("map_dynkeys_split", "map_dynarr_split", "map_dyn2"):
+            c = procdrv.Cycle(root, os.path.join(base, "ref1_" + p["name"]), p, sem[p["name"]], p["name"], cores=1)
+            rc, dt = c.run()
+            evs = c.events()
+            w = mrp_writer(evs)
+            mine1 = [e for e in evs if e.get("w") == w]
+            c.cleanup()
+            if rc != 0:
+                raise vlib.Infra("one-core reference run of %s failed (rc=%s)" % (p["name"], rc))
+            ks = [i + 1 for i, e in enumerate(mine1) if e["ev"] in ("ProcStart", "JournalSeen", "Submit")]
+            rng.shuffle(ks)
+            for k in ks[:{"quick": 8, "thorough": 400}[tier]]:
+                onecore[len(cases)] = True
+                cases.append((p, k, "SIGKILL"))
+
     def do(i):
         p, k, sig = cases[i]
-        return one_cycle(root, os.path.join(base, "c%d" % i), p, sem[p["name"]], "%s#k%d%s" % (p["name"], k, sig), k, sig)
+        return one_cycle(root, os.path.join(base, "c%d" % i), p, sem[p["name"]], "%s#k%d%s%s" % (p["name"], k, sig, "one" if i in onecore else ""), k, sig,
+                         cores=(1 if i in onecore else 4))
 
     with ThreadPoolExecutor(16) as ex:
         results = list(ex.map(do, range(len(cases))))
